@@ -23,6 +23,11 @@ import (
 // headers of the batch passed as parents).
 type StubUcon struct {
 	*solo.Solo
+	// VersionLookup: like ucon's verifyHeader (consensus/ucon/consensus.go), ask the chain for the protocol parameters
+	// of the header's round FIRST, passing the earlier headers of the batch as parents, and fail with the lookup's
+	// error.  Off by default (C06/C11 keep the outcomes they were built on); switched on by C12 part 3, where this
+	// call is the consumer of VersionForRoundWithParents during header verification.
+	VersionLookup bool
 }
 
 var errBadSeal = errors.New("invalid sealer")
@@ -32,7 +37,7 @@ const BadSealMark = 0xBD
 
 // NewStubUcon returns the engine (sealer mode on).
 func NewStubUcon() *StubUcon {
-	s := &StubUcon{solo.NewSolo()}
+	s := &StubUcon{Solo: solo.NewSolo()}
 	s.Solo.Update(true, 0, 1)
 	return s
 }
@@ -46,6 +51,11 @@ func (s *StubUcon) verify(chain consensus.ChainReader, header *types.Header, par
 	number := header.Number.Uint64()
 	if number == 0 {
 		return nil
+	}
+	if s.VersionLookup {
+		if _, err := chain.VersionForRoundWithParents(number, parents); err != nil {
+			return err
+		}
 	}
 	// verifySignature happens before the cascading fields in ucon
 	if !sealOK(header) {
